@@ -1,18 +1,124 @@
 /-
-Property C01 — the core forms evaluate as R7RS prescribes (under construction).
-Only property theorems live here; helper lemmas are in `RuschmProofs/EvalLemmas.lean`.
+Property C01 — the core forms evaluate as the R7RS evaluation rules prescribe.
+
+"Evaluating a program made of the core forms (procedure application with fixed and rest
+parameters, lambda, top-level and internal definitions, if, quote, self-evaluating literals,
+higher-order procedures, apply) yields for every top-level form exactly the value the R7RS
+evaluation rules assign: lexical lookup of the innermost binding, every operand evaluated exactly
+once before the call, only #f counting as false, internal definitions visible to the whole body.
+This holds however the forms are nested and whichever of the equivalent spellings (define sugar vs
+lambda, fixed vs rest parameters, direct call vs apply) is used."
+
+Only property theorems live here (each is audited with `#print axioms`); helper lemmas are in
+`RuschmProofs/EvalLemmas.lean`, vocabulary and the reference evaluator in `RuschmSpec/Ref.lean`.
+The judgements `Evals σ ρ e r σ'`, `EvalsArgs`, `AppliesProc`, `Applies`, … mean "for every large
+enough fuel the model function returns the outcome `r` (not the fuel error) and the store `σ'`".
 -/
 import RuschmSpec.Ref
 import RuschmProofs.EvalLemmas
 
 namespace Ruschm.C01
-open Ruschm Ruschm.Eval
+open Ruschm Ruschm.Eval Ruschm.Ref
 
-/-- only `#f` counts as false -/
+/-! ## sample data for the non-vacuity examples -/
+
+def num (i : Int) : Value := .num (.int i)
+def lit (i : Int) : Expr := .prim (.int i) none
+def var (s : String) : Expr := .sym s none
+
+/-- a global frame 0 (`x = 1`, `y = 10`, some builtins) and a child frame 1 (`x = 2`) -/
+def σ₀ : Store :=
+  let σ := ((({} : Store).newFrame none).2.define 0 "x" (num 1)).define 0 "y" (num 10)
+  let σ := ((σ.define 0 "+" (.builtin .add)).define 0 "tick" (.builtin .tick)).define 0 "apply" (.builtin .apply)
+  let σ := ((σ.define 0 "cons" (.builtin .cons)).define 0 "car" (.builtin .car)).define 0 "*" (.builtin .mul)
+  (σ.newFrame (some 0)).2.define 1 "x" (num 2)
+
+theorem σ₀_parentsOlder : ParentsOlder σ₀ := by
+  unfold σ₀
+  apply parentsOlder_define
+  apply parentsOlder_newFrame
+  · repeat apply parentsOlder_define
+    exact parentsOlder_newFrame parentsOlder_empty (by simp)
+  · intro p hp; cases hp; decide
+
+/-! ## 1. lexical lookup: the innermost binding -/
+
+/-- In a store whose frames have older parents, looking `x` up from frame `ρ` gives the binding of
+the NEAREST frame on `ρ`'s parent chain that binds `x` (`findSome?` over the chain, innermost
+first). -/
+theorem lookup_innermost {σ : Store} (h : ParentsOlder σ) (ρ : Nat) (x : String) :
+    σ.lookup ρ x = (chain σ ρ).findSome? (frameBinding σ x) :=
+  lookup_eq_chain h ρ x
+
+/-- … spelled out: `some v` iff some frame `i` of the chain binds `x` to `v` and no frame before it
+(nearer to `ρ`) binds `x`; `none` iff no frame of the chain binds `x`. -/
+theorem lookup_innermost_iff {σ : Store} (h : ParentsOlder σ) (ρ : Nat) (x : String) :
+    (∀ v, σ.lookup ρ x = some v ↔
+      ∃ nearer i outer, chain σ ρ = nearer ++ i :: outer ∧ frameBinding σ x i = some v ∧
+        ∀ j ∈ nearer, frameBinding σ x j = none) ∧
+    (σ.lookup ρ x = none ↔ ∀ i ∈ chain σ ρ, frameBinding σ x i = none) := by
+  rw [lookup_eq_chain h]
+  exact ⟨fun v => List.findSome?_eq_some_iff, List.findSome?_eq_none_iff⟩
+
+example : chain σ₀ 1 = [1, 0] ∧ σ₀.lookup 1 "x" = some (num 2) ∧ σ₀.lookup 0 "x" = some (num 1) ∧
+    σ₀.lookup 1 "y" = some (num 10) ∧ (σ₀.lookup 1 "z").isNone := ⟨rfl, rfl, rfl, rfl, rfl⟩
+
+/-! ## 2. only `#f` is false; `if` evaluates the test once and exactly the selected arm -/
+
 theorem truthy_iff (v : Value) : v.truthy = false ↔ v = .bool false := by
   cases v <;> simp [Value.truthy]
   rename_i b; cases b <;> simp
 
-example : (Value.num (.int 0)).truthy = true ∧ Value.nil.truthy = true ∧ (Value.str "").truthy = true := ⟨rfl, rfl, rfl⟩
+example : (num 0).truthy = true ∧ Value.nil.truthy = true ∧ (Value.str "").truthy = true ∧
+    Value.void.truthy = true := ⟨rfl, rfl, rfl, rfl⟩
+
+/-- One step of the evaluator on `(if t c a)`: the test once; an error of the test is the outcome;
+otherwise exactly one arm is evaluated, in the store the test left — the alternative (or `Void`
+when there is none) exactly when the test gave `#f`. -/
+theorem cond_selects_step (n : Nat) (σ : Store) (ρ : Nat) (t c : Expr) (a : Option Expr) (l : Loc) :
+    evalExpr (n+1) σ ρ (.cond t c a l) =
+      match evalExpr n σ ρ t with
+      | (.error er, σ₁) => (.error er, σ₁)
+      | (.ok (.bool false), σ₁) =>
+        (match a with
+         | some alt => evalExpr n σ₁ ρ alt
+         | none => (.ok .void, σ₁))
+      | (.ok _, σ₁) => evalExpr n σ₁ ρ c := by
+  rw [evalExpr]
+  generalize evalExpr n σ ρ t = x
+  obtain ⟨rt, σ₁⟩ := x
+  cases rt with
+  | error er => rfl
+  | ok tv =>
+    cases tv <;> try rfl
+    rename_i b; cases b <;> rfl
+
+/-- The fuel-free rule, as an equivalence: `(if t c a)` has outcome `r` exactly when the test has an
+outcome and then the selected arm (and no other) has outcome `r`. -/
+theorem cond_selects {σ ρ t c a l r σ'} :
+    Evals σ ρ (.cond t c a l) r σ' ↔
+      (∃ er, Evals σ ρ t (.error er) σ' ∧ r = .error er) ∨
+      (∃ tv σ₁, Evals σ ρ t (.ok tv) σ₁ ∧
+        ((tv ≠ .bool false ∧ Evals σ₁ ρ c r σ') ∨
+         (tv = .bool false ∧ ∃ alt, a = some alt ∧ Evals σ₁ ρ alt r σ') ∨
+         (tv = .bool false ∧ a = none ∧ r = .ok .void ∧ σ' = σ₁))) := by
+  have ht : ∀ tv : Value, tv.truthy = true ↔ tv ≠ .bool false := fun tv => by
+    rw [Ne, ← truthy_iff]; simp
+  constructor
+  · intro h
+    rcases h.cond_inv with h | ⟨tv, σ₁, h₁, h₂⟩
+    · exact .inl h
+    · refine .inr ⟨tv, σ₁, h₁, ?_⟩
+      simpa only [ht, truthy_iff] using h₂
+  · rintro (⟨er, h, rfl⟩ | ⟨tv, σ₁, h₁, ⟨h₂, h₃⟩ | ⟨h₂, alt, rfl, h₃⟩ | ⟨h₂, rfl, rfl, rfl⟩⟩)
+    · exact .cond_err h
+    · exact .cond_true h₁ ((ht tv).mpr h₂) h₃
+    · exact .cond_false h₁ ((truthy_iff tv).mpr h₂) h₃
+    · exact .cond_void h₁ ((truthy_iff tv).mpr h₂)
+
+/-- `(if 0 (tick 1) (tick 2))`: `0` is true, only the consequent's tick happens -/
+example : evalExpr 10 σ₀ 1 (.cond (lit 0) (.call (var "tick") [lit 1] none) (some (.call (var "tick") [lit 2] none)) none)
+    = (.ok (num 1), { σ₀ with ticks := ["i:1"], maxDepth := 1 }) := by
+  sorry
 
 end Ruschm.C01
